@@ -20,7 +20,7 @@ REALS = BOUNDARY_REALS + ["0.0", "-0.0", "1.5", "-2.5", "0.1", "1e10", "1e-10", 
          "(/ 1 3.0)", "(sqrt 2)", "1e21", "1e-7", "123456.789", "(+ 2147483647 1)", "(exact->inexact-missing)"]
 CHARS = ["#\\a", "#\\Z", "#\\0", "#\\space", "#\\newline", "#\\tab", "#\\(", "#\\)", "#\;", "#\\\"", "#\\|", "#\\\\", "#\\x", "#\\#",
          "#\\x41", "#\\x3bb", "#\\'", "#\\.", "#\\x0"]
-SYMS = ["'foo", "'list->vector", "'a1", "'+", "'-", "'...", "'<=?", "'x.y", "'lambda", "'if", "'else", "'quote", "'a-b", "'+a"]
+SYMS = ["'foo", "'list->vector", "'a1", "'+", "'-", "'...", "'<=?", "'x.y", "'lambda", "'if", "'else", "'quote", "'a-b", "'+a", "'-x1", "'+y2", "'->utf8", "'...1", "'--0", "'+-5", "'..a.b"]
 BOOLS = ["#t", "#f"]
 
 
